@@ -27,11 +27,21 @@ PROPS = {
         "not_covered": ["RiBufImpl::set_scheme (URI/IRI with mandatory scheme) and from_scheme: not under contract",
                         "uri/ iri/ one-line wrappers", "validity of the result as a member of the RFC language (needs grammar lemma G1; only the structural decomposition is proved)"],
     },
+    "C09": {
+        "level": "proof",
+        "units": [{"kind": "verus", "name": "NormalizedSegmentsImpl::new vs the RFC 3986 5.2.4 / Errata 4547 fold; PathMutImpl::normalize vs the rendering of that sequence (with shield) + frame",
+                   "specs": ["00_base", "01_chars", "02_authority", "03_types", "04_path", "05_compose", "06_refcompose", "07_pathmut", "08_segs", "09_norm"], "per_function": ["common::path_mut"], "rlimit": 300}],
+        "assumptions": ["smallvec behaves like a Vec (assumed contracts of SmallVec::{new,push,pop,len,deref,extend_from_slice,into_iter} and IntoIter::{next,next_back})",
+                        "path_shape / handle invariant as preconditions"],
+        "not_covered": ["PathImpl::normalized() (the copying variant, built from symbolic_push) is not under contract; on the unchanged tree it drops leading empty segments ('//a' -> '/a') - recorded finding",
+                        "idempotence and 'segments of the rendered text == normalized sequence' are not yet proved as lemmas (the rendering itself is exact)",
+                        "ExactSizeIterator::len / size_hint of NormalizedSegments"],
+    },
     "C10": {
         "level": "proof",
         "units": [{"kind": "verus", "name": "PathMutImpl push/pop/clear/symbolic_push: exact result text + frame; list-semantics and context-safety lemmas on the text level",
                    "specs": ["00_base", "01_chars", "02_authority", "03_types", "04_path", "05_compose", "06_refcompose", "07_pathmut", "08_segs"],
-                   "isolate": [["common::path_mut", "*::push"]], "rlimit": 300}],
+                   "per_function": ["common::path_mut"], "rlimit": 300}],
         "assumptions": ["handle invariant as precondition (window inside the buffer, window text is a path); segment arguments have no '/', '?', '#'",
                         "RiRefBufImpl::path_mut / PathBufImpl::as_path_mut construct the handle on the path of the buffer (constructor contract assumed: one-line wrappers)"],
         "not_covered": ["symbolic_append (generic IntoIterator loop) and normalize (C09) are not under contract",
@@ -66,6 +76,11 @@ PROPS = {
 }
 
 MANIFEST_TEXT = {
+    "C09": {
+        "technique": "Verus loop invariant on the real stack-based normaliser (view of the stack == left fold of the RFC step over the consumed segments) and exact-text contract on in-place normalize",
+        "level_text": "Deductive proof for all paths of any length (no 16-segment / 512-byte bound): NormalizedSegmentsImpl::new returns exactly norm_fold(segs(path)), the left fold that drops '.', lets '..' remove the previous segment, keeps it when the path is relative and nothing (or only '..') is left, and drops it at the root of an absolute path; PathMutImpl::normalize rewrites the path window to first-offset + optional './' shield + the '/'-join of that sequence, leaves prefix and suffix (scheme, authority, query, fragment) byte-identical, cannot overflow (normalisation never lengthens: proved), and re-establishes the handle invariant.",
+        "level_note": "Assumed: smallvec contracts. Known finding: normalized() (copy) drops leading empty segments. Not covered: normalized(), idempotence lemma, size_hint.",
+    },
     "C10": {
         "technique": "Verus contracts on the real PathMutImpl (exact result text as a spec function + frame) and proved lemmas linking those texts to the '/'-split segment sequence",
         "level_text": "Deductive proof for all buffers and arguments: push, pop, clear and symbolic_push leave everything outside the path window byte-identical (scheme, authority, query, fragment untouched), re-establish the handle invariant (so sequences of edits compose), and produce exactly push_text / pop_text / clear_text / sym_push_text of the old path; proved lemmas state what those texts mean: the segment sequence gains exactly the pushed segment (a '.' appears only as a shield before an empty or ':'-bearing first segment and disappears only where it was one), pop removes the last segment, clear removes all, and the path stays unambiguous in its context (absolute after an authority, no leading '//' without one, no ':' in a first segment that starts the reference).",
@@ -119,7 +134,6 @@ NOT_APPLICABLE = {
     "C06": "check not built yet",
     "C07": "check not built yet",
     "C08": "check not built yet",
-    "C09": "check not built yet",
     "C13": "check not built yet",
     "C14": "all routes except from_vec and the conversions are emitted by the third-party static-regular-grammar derive or macro_rules templates, generic over serde traits; no item in /repo to put a contract on, and neither Verus nor Kani model fmt/serde",
     "C15": "check not built yet",
